@@ -478,9 +478,9 @@ func crashAppend(before, after *dpState, ref string, keep int, np, row bool) (*d
 	}
 	// row only after all bytes are synced; the next pack file only after that too; row and roll-over in
 	// either order (the source order of index.Set and nextPack has changed once already)
-	if row && keep != len(add) {
-		return nil, false
-	}
+	// (row with fewer bytes: the state "index updated, data not there" of the property's quantifier – not
+	// reachable while Sync precedes index.Set and fsync keeps its promise, but it is the state the
+	// duplicate-receive check exists for)
 	if np && !(rollover && keep == len(add)) {
 		return nil, false
 	}
